@@ -1,18 +1,19 @@
 (* Schedule independence of the concrete k-means model.
 
-   [reds_chk sum_ok val_ok T P] computes every reduction over the split tree
+   [reds_chk sum_ok val_ok cmp_ok T P] computes every reduction over the split tree
    [T key] like [reds_tree T P], but answers `Panic 99` when the reduced values
    are not covered by the exactness premises:
      - sums (`.sum::<f64>()`, `.sum::<PointND<D>>()`): [sum_ok] of the summed list
        (per coordinate for vectors);
-     - max_by / min_by / the bounding-box fold: [val_ok] of every value.
+     - the bounding-box fold: [val_ok] of every value; max_by / min_by: [cmp_ok] of the list.
    Main theorem ([kmeans_chk_sched_indep]): if the CHECKED run under one family
    of trees answers r <> Panic 99, then the run under EVERY family of trees
    answers r.  The premises on the arithmetic are those of Section [Sched]:
    a sum of an accepted list does not depend on the tree, a max / min / box of
    accepted values does not depend on the tree.  They are proved for binary64
    in Proofs/KMeansF64Sched.v with [sum_ok_f64] (integers, absolute values adding
-   up to at most 2^53) and [val_ok_f64] (neither NaN nor -0.0).
+   up to at most 2^53), [val_ok_f64] (neither NaN nor -0.0) and [cmp_ok_f64] (no NaN,
+   not both 0.0 and -0.0).
    `erode` is excluded (its sum runs in HashMap order, and its ln / exp are
    not modelled); the rotation matrix is the same on both sides (it is an input
    of the model: class `obb-inexact-sums` of C06 otherwise). *)
@@ -140,6 +141,7 @@ Section Sched.
   Variable A : karith.
   Variable sum_ok : list (num A) -> bool.
   Variable val_ok : num A -> bool.
+  Variable cmp_ok : list (num A) -> bool.
 
   (* the exactness premises *)
   Definition sums_exact : Prop :=
@@ -147,10 +149,10 @@ Section Sched.
   Definition vsums_exact : Prop :=
     forall D xs, vsum_ok A sum_ok D xs = true -> forall t1 t2, tree_vsum A t1 D xs = tree_vsum A t2 D xs.
   Definition max_decided : Prop :=
-    forall xs, forallb val_ok xs = true ->
+    forall xs, cmp_ok xs = true ->
     forall t1 t2, tree_reduce (max_op A) t1 xs = tree_reduce (max_op A) t2 xs.
   Definition min_decided : Prop :=
-    forall xs, forallb val_ok xs = true ->
+    forall xs, cmp_ok xs = true ->
     forall t1 t2, tree_reduce (min_op A) t1 xs = tree_reduce (min_op A) t2 xs.
   Definition bbox_decided : Prop :=
     forall D xs, forallb (fun v => Nat.eqb (length v) D && forallb val_ok v) xs = true ->
@@ -162,14 +164,14 @@ Section Sched.
   Hypothesis HMn : min_decided.
   Hypothesis HB : bbox_decided.
 
-  Lemma chk_refines_tree T1 T2 P : refR (reds_chk A sum_ok val_ok T1 P) (reds_tree A T2 P).
+  Lemma chk_refines_tree T1 T2 P : refR (reds_chk A sum_ok val_ok cmp_ok T1 P) (reds_tree A T2 P).
   Proof.
     unfold refR, reds_chk, reds_tree, guard; cbn [r_sum r_vsum r_maxby r_minby r_bbox r_gsum].
     repeat split; intros.
     - destruct (sum_ok xs) eqn:E; [right; f_equal; now apply HS|left; reflexivity].
     - destruct (vsum_ok A sum_ok D xs) eqn:E; [right; f_equal; now apply HV|left; reflexivity].
-    - destruct (forallb val_ok xs) eqn:E; [right; f_equal; now apply HMx|left; reflexivity].
-    - destruct (forallb val_ok xs) eqn:E; [right; f_equal; now apply HMn|left; reflexivity].
+    - destruct (cmp_ok xs) eqn:E; [right; f_equal; now apply HMx|left; reflexivity].
+    - destruct (cmp_ok xs) eqn:E; [right; f_equal; now apply HMn|left; reflexivity].
     - destruct (forallb (fun v => Nat.eqb (length v) D && forallb val_ok v) xs) eqn:E;
         [right; f_equal; now apply HB|left; reflexivity].
     - destruct (sum_ok xs); [right; reflexivity|left; reflexivity].
@@ -177,7 +179,7 @@ Section Sched.
 
   (* a checked run that raises no flag is the run of every schedule *)
   Theorem kmeans_chk_sched_indep : forall T1 T2 P rot D cfg points weights part r,
-    kmeans A (reds_chk A sum_ok val_ok T1 P) rot D cfg points weights part = r ->
+    kmeans A (reds_chk A sum_ok val_ok cmp_ok T1 P) rot D cfg points weights part = r ->
     r <> Panic 99 ->
     kmeans A (reds_tree A T2 P) rot D cfg points weights part = r.
   Proof.
@@ -187,7 +189,7 @@ Section Sched.
 
   (* any two families of split trees *)
   Corollary kmeans_sched_indep : forall T0 T1 T2 P rot D cfg points weights part,
-    kmeans A (reds_chk A sum_ok val_ok T0 P) rot D cfg points weights part <> Panic 99 ->
+    kmeans A (reds_chk A sum_ok val_ok cmp_ok T0 P) rot D cfg points weights part <> Panic 99 ->
     kmeans A (reds_tree A T1 P) rot D cfg points weights part =
     kmeans A (reds_tree A T2 P) rot D cfg points weights part.
   Proof.
